@@ -286,4 +286,36 @@ def run(rep: Report, tier: str) -> None:  # noqa: C901
                                     f"{sk.func.name} gathers the values a viral propagation rule reduces with a plain UNION: two children (or operands) carrying the same values for the same "
                                     f"identifiers collapse into one row, so `aggregate sum` / `avg` and non-idempotent enumerated rules see too few values"))
     rep.floor("R28.7 unions in viral-propagation SQL", n7, 2)
+    # ---- R28.8 the result of DS op DS carries the viral attributes of BOTH operands, in both structure computations ----
+    rep.rule("R28.8", "dataset-dataset operators: the result structure has every viral attribute of either operand and no plain attribute (semantic analysis and the transpiler's structure, finite model)")
+    from sa import structmodel as _sm
+    from sa.e6 import Unmodelled as _Unm
+    _M = _sm.Model(P)
+    n8 = 0
+    fv = P.func("vtlengine.Operators.Binary.dataset_validation")
+    fb = P.func(_sm.SV + "._build_ds_ds_binop_structure")
+    for lab, li, ri in (("equal-ids", ["A"], ["A"]), ("left-superset", ["A", "B"], ["A"]), ("right-superset", ["A"], ["A", "B"])):
+        for lv, rv in ((["V"], []), ([], ["V"]), (["V"], ["W"]), (["V"], ["V"]), (["V", "W"], ["W"])):
+            want = tuple(sorted(set(lv) | set(rv)))
+            for side, fn_, who in (("interpreter", fv, "semantic analysis"), ("structure-visitor", fb, "the transpiler's StructureVisitor")):
+                L, R = _M.ds("DS_1", li, ["M"], lv, ["T"]), _M.ds("DS_2", ri, ["M"], rv, ["U"])
+                try:
+                    res = _M.interpreter_binary("vtlengine.Operators.Numeric.BinPlus", L, R) if side == "interpreter" else _M.visitor_binary(L, R)
+                except _Unm as e:
+                    raise AnalysisError(f"R28.8 {side}: construct outside the evaluator's language: {e}")
+                n8 += 1
+                key = f"binary-virals/{side}/{lab}/L={'+'.join(lv) or '-'}/R={'+'.join(rv) or '-'}"
+                rep.instance("R28.8", key, nontrivial=True)
+                if res[0] != "ok" or not hasattr(res[1], "components"):
+                    rep.add(Finding("R28.8", f"R28.8/{key}", fn_.module.rel, fn_.node.lineno, fn_.qualname,
+                                    f"DS_1(ids {li}, viral {lv}) + DS_2(ids {ri}, viral {rv}) is rejected or yields no structure in {who}: {res}"))
+                    continue
+                got = tuple(sorted(c.name for c in res[1].get_viral_attributes()))
+                plain = sorted(c.name for c in res[1].get_attributes())
+                if got != want or plain:
+                    rep.add(Finding("R28.8", f"R28.8/{key}", fn_.module.rel, fn_.node.lineno, fn_.qualname,
+                                    f"DS_1(ids {li}, viral attributes {lv}) + DS_2(ids {ri}, viral attributes {rv}): {who} gives the result the viral attributes {list(got)}"
+                                    + (f" and the plain attributes {plain}" if plain else "") + f"; it must carry {list(want)} (every viral attribute of either operand, "
+                                    f"combined by its propagation rule when both have it) and no plain attribute"))
+    rep.floor("R28.8 cases", n8, 30)
     rep.assumptions = ["LEAST/GREATEST/+// on non-null numbers behave as min/max/sum/quotient (exact rationals used)", "grammar tokens MIN MAX SUM AVG are the aggregate functions of vp clauses"]
